@@ -1,6 +1,8 @@
 #!/usr/bin/env python3
 """usage: gen_trans.py <repo> <coqdir>  -- re-translate decision logic of /repo/SRC into Gallina (tools/c2gal.py) on every run:
      coq/ArgCheckGen.v   the argument tests of p?gssv, ?gstrs, ?gsrfs, ?gscon, ?gsequ, sp_?trsv, sp_?gemv (4 precisions each)
+     coq/PivotGen.v      the pivot search and pivot policy of p?gstrf_pivotL (4 precisions)
+     coq/UstackGen.v     the two-ended user stack of p?memory.c: ?user_malloc, ?user_free (4 precisions)
    The tie theorems (generated definition = hand-written model) live in the hand-written coq/*Tie.v files.
    A piece that cannot be translated is left out of the generated file with the reason in a comment: its tie theorem then
    fails to compile, which the checks report as a broken obligation."""
@@ -124,6 +126,199 @@ def gen_argcheck():
     return ok
 
 
+# ------------------------------------------------------------------------------------------------ pivot search and policy
+def reads_array(n, names):
+    return mentions(n, lambda x: x.get("kind") == "ArraySubscriptExpr" and strip(x["inner"][0]).get("kind") == "DeclRefExpr"
+                    and strip(x["inner"][0])["referencedDecl"]["name"] in names)
+
+
+def is_store_to(s, name):
+    if s.get("kind") != "BinaryOperator" or s.get("opcode") != "=":
+        return False
+    l = strip(s["inner"][0])
+    return l.get("kind") == "ArraySubscriptExpr" and strip(l["inner"][0]).get("kind") == "DeclRefExpr" \
+        and strip(l["inner"][0])["referencedDecl"]["name"] == name
+
+
+def h_at_jcol(gname):
+    """inv_perm_r[jcol] / inv_perm_c[jcol]: only the entry of the current column is an input"""
+    def h(tr, idx, env):
+        i = strip(idx)
+        if i.get("kind") == "DeclRefExpr" and i["referencedDecl"]["name"] == "jcol":
+            return (gname, "Z")
+        raise Unsupported("read of %s at an index other than jcol" % gname)
+    return h
+
+
+def h_mag(by_address):
+    """fabs(lu_col_ptr[i]) / z_abs1(&lu_col_ptr[i]) / c_abs1(&lu_col_ptr[i])  ==>  (mag i): the magnitude the code compares"""
+    def h(tr, args, env):
+        if len(args) != 1:
+            raise Unsupported("magnitude call with %d arguments" % len(args))
+        a = strip(args[0])
+        if by_address:
+            if a.get("kind") != "UnaryOperator" or a.get("opcode") != "&":
+                raise Unsupported("?_abs1 argument is not &lu_col_ptr[i]")
+            a = strip(a["inner"][0])
+        if a.get("kind") != "ArraySubscriptExpr" or strip(a["inner"][0]).get("kind") != "DeclRefExpr" \
+                or strip(a["inner"][0])["referencedDecl"]["name"] != "lu_col_ptr":
+            raise Unsupported("magnitude of something that is not lu_col_ptr[i]")
+        return ("(mag %s)" % tr.toZ(tr.ex(a["inner"][1], env)), "Z")
+    return h
+
+
+PIVOT_PARAMS = [("jcol", "Z"), ("nsupc", "Z"), ("nsupr", "Z"), ("usepr", "Z"), ("pivrow0", "Z"), ("oldrow", "Z"), ("diagind", "Z"),
+                ("row", "Z -> Z"), ("mag", "Z -> Z"), ("thr", "Z")]
+PIVOT_ABS = {"s": {"fabs": h_mag(False)}, "d": {"fabs": h_mag(False)}, "c": {"c_abs1": h_mag(True)}, "z": {"z_abs1": h_mag(True)}}
+
+
+def gen_pivot():
+    out = ["(* GENERATED on every run by tools/gen_trans.py (translator tools/c2gal.py, clang AST built WITHOUT -DSLU_MT_VERIF) from the",
+           "   pivot search and pivot policy of p?gstrf_pivotL in %s -- do not edit." % SRC,
+           "   Slice: from the first statement that reads inv_perm_r[] / inv_perm_c[] up to, not including, `perm_r[*pivrow] = jcol;`.",
+           "   Inputs: jcol; nsupc, nsupr (set up before the slice, not translated); usepr = *usepr and pivrow0 = *pivrow on entry;",
+           "   oldrow = inv_perm_r[jcol]; diagind = inv_perm_c[jcol]; row i = lsub_ptr[i]; mag i = the magnitude the code computes",
+           "   from lu_col_ptr[i] (fabs, c_abs1, z_abs1), scaled to an integer; 0.0 is 0; thr = the value of `thresh = u * pivmax`.",
+           "   Stores to perm_r[] / inv_perm_r[] are dropped (neither array is read after such a store inside the slice).",
+           "   Result (returned, info, pivptr, *pivrow, *usepr): returned = true, info = the returned value for the early return of the",
+           "   singular branch; returned = false, info = 0 when the slice runs to its end (the routine then ends with `return 0;`).",
+           "   Loop bodies are definitions of their own (gen_<routine>_loop<k>); tuples list variables in declaration order. *)",
+           "Require Import ZArith List Bool.", "From SLU Require Import Consts C2GalLib.", "Local Open Scope Z_scope.", "Local Open Scope bool_scope.", ""]
+    ok = 0
+    for p in "sdcz":
+        fname = "p%sgstrf_pivotL" % p
+        gname = "gen_" + fname
+        cfile = os.path.join(SRC, fname + ".c")
+        try:
+            fn = c2gal.load_function(cfile, fname, incdir=SRC)
+            body = [c for c in fn["inner"] if c.get("kind") == "CompoundStmt"][0]["inner"]
+            i0 = next((i for i, s in enumerate(body) if reads_array(s, ("inv_perm_r", "inv_perm_c"))), None)
+            if i0 is None:
+                raise Unsupported("start of the slice (first read of inv_perm_r / inv_perm_c) not found")
+            i1 = next((i for i in range(i0, len(body)) if is_store_to(body[i], "perm_r")), None)
+            if i1 is None:
+                raise Unsupported("end of the slice (`perm_r[*pivrow] = jcol;` at the top level) not found")
+            rest = body[i1:]
+            last = rest[-1] if rest else {}
+            if last.get("kind") != "ReturnStmt" or strip(last["inner"][0]).get("kind") != "IntegerLiteral" or strip(last["inner"][0])["value"] != "0" \
+                    or any(mentions(s, lambda x: x.get("kind") == "ReturnStmt") for s in rest[:-1]):
+                raise Unsupported("after the slice the routine does not simply end with `return 0;`")
+            for s in body[:i0]:
+                if mentions(s, lambda x: x.get("kind") == "ReturnStmt"):
+                    raise Unsupported("a return before the slice")
+
+            def result(tr, env, returned, info):
+                try:
+                    return "(%s, %s, %s, %s, %s)" % (returned, info, tr.toZ(env["pivptr"]), tr.toZ(env["*pivrow"]), tr.toZ(env["*usepr"]))
+                except KeyError as e:
+                    raise Unsupported("%s has no value at an exit of the slice" % e)
+            cfg = {"inputs": {"jcol": ("jcol", "Z"), "nsupc": ("nsupc", "Z"), "nsupr": ("nsupr", "Z"),
+                              "*usepr": ("usepr", "Z"), "*pivrow": ("pivrow0", "Z")},
+                   "cells": {"usepr", "pivrow"},
+                   "arrays": {"lsub_ptr": "row", "inv_perm_r": h_at_jcol("oldrow"), "inv_perm_c": h_at_jcol("diagind")},
+                   "calls": PIVOT_ABS[p], "ignore_calls": set(), "ignore_stores": {"perm_r", "inv_perm_r"},
+                   "override": {"thresh": ("thr", "Z")}, "zero_float": True, "local_temps": True,
+                   "state_order": c2gal.decl_order(fn), "lift_loops": gname, "params": PIVOT_PARAMS,
+                   "on_return": lambda tr, env, val: result(tr, env, "true", tr.toZ(val) if val else "0")}
+            tr = c2gal.Tr(cfg)
+            term = tr.seq(body[i0:i1], dict(cfg["inputs"]), lambda e: result(tr, e, "false", "0"))
+            out.append("(* %s : %s *)" % (os.path.basename(cfile), fname))
+            for l in tr.lifted:
+                out.append("(* state %s; outer names %s *)" % (", ".join(l[2]), ", ".join(l[3])))
+                out.append(l[1])
+            out.append("Definition %s %s : bool * Z * Z * Z * Z :=\n%s.\n" % (gname, " ".join("(%s : %s)" % b for b in PIVOT_PARAMS), term))
+            ok += 1
+        except Unsupported as e:
+            out.append("(* %s NOT TRANSLATED: %s *)\n" % (gname, str(e).replace("*)", "* )")))
+    write_if_changed(os.path.join(COQ, "PivotGen.v"), "\n".join(out) + "\n")
+    return ok
+
+
+# ---------------------------------------------------------------------------------------------------
+# the two-ended user stack of p?memory.c
+USTACK_VAR = "stack"
+USTACK_CELLS = ["size", "used", "top1", "top2"]          # int_t fields: inputs and outputs of the generated functions
+USTACK_BASE = "array"                                    # void *array: the tracked base pointer (its address is a parameter)
+USTACK_LOCK = "lock"
+USTACK_ENUMS = ["HEAD", "TAIL"]
+
+
+def gen_ustack():
+    out = ["(* GENERATED on every run by tools/gen_trans.py (translator tools/c2gal.py, clang AST, built WITHOUT -DSLU_MT_VERIF) from",
+           "   ?user_malloc / ?user_free of p?memory.c in %s -- do not edit." % SRC,
+           "   gen_<p>user_malloc stk_size stk_used stk_top1 stk_top2 stk_array <bytes> <which_end> = (returned pointer, (size, used, top1, top2)):",
+           "   the stk_* are the fields of the file-static `stack` before the call, stk_array is the ADDRESS held in stack.array; the result",
+           "   pointer is a C2GalLib.cptr: None = NULL, Some off = (char * ) stack.array + off.  The second component holds the fields after",
+           "   the call.  int_t arithmetic is arithmetic in Z (no wrap-around); the critical section (pthread_mutex_lock / unlock of",
+           "   &stack.lock) is checked by the translator: every access to a field happens with the lock held, every path releases it. *)",
+           "Require Import ZArith List Bool.", "From SLU Require Import C2GalLib.", "Local Open Scope Z_scope.", "Local Open Scope bool_scope.", ""]
+    ok = 0
+    cellnames = ["%s.%s" % (USTACK_VAR, f) for f in USTACK_CELLS]
+    basename = "%s.%s" % (USTACK_VAR, USTACK_BASE)
+    for p in "sdcz":
+        cfile = os.path.join(SRC, "p%smemory.c" % p)
+        enums = {}
+        try:
+            vals = c2gal.int_constants(cfile, USTACK_ENUMS, incdir=SRC)
+            out.append("(* %s : the values of the enumeration stack_end_t *)" % os.path.basename(cfile))
+            for x in USTACK_ENUMS:
+                out.append("Definition gen_%s_%s : Z := %d." % (p, x, vals[x]))
+                enums[x] = "gen_%s_%s" % (p, x)
+            out.append("")
+        except Unsupported as e:
+            out.append("(* gen_%s_HEAD / gen_%s_TAIL NOT TRANSLATED: %s *)\n" % (p, p, str(e).replace("*)", "* )")))
+        for which in ("malloc", "free"):
+            fname = "%suser_%s" % (p, which)
+            gname = "gen_" + fname
+            try:
+                fn = c2gal.load_function(cfile, fname, incdir=SRC)
+                params = [c for c in fn.get("inner", []) if c.get("kind") == "ParmVarDecl"]
+                if len(params) != 2 or any("name" not in c or c["type"].get("desugaredQualType", c["type"]["qualType"]) not in ("int", "long", "long long") for c in params):
+                    raise Unsupported("%s does not have two named integer parameters" % fname)
+                inputs = {cn: ("stk_" + f, "Z") for cn, f in zip(cellnames, USTACK_CELLS)}
+                for c in params:
+                    if c["name"].startswith("stk_") or c["name"].startswith("gen_"):
+                        raise Unsupported("parameter name %s clashes with the generated binders" % c["name"])
+                    inputs[c["name"]] = (c2gal.gallina_ident(c["name"]), "Z")
+
+                def result(val, env):
+                    if "#lock" in env:
+                        raise Unsupported("%s returns while the lock is held" % fname)
+                    return "(%s, (%s))" % (val, ", ".join(env[cn][0] for cn in cellnames))
+
+                def on_return(tr, env, val, which=which):
+                    if which == "malloc":
+                        if val is None or val[1] != "P":
+                            raise Unsupported("%s returns something that is not a pointer" % fname)
+                        return result(val[0], env)
+                    if val is not None:
+                        raise Unsupported("%s returns a value" % fname)
+                    return result("tt", env)
+
+                def final(tr, env, which=which):
+                    if which == "malloc":
+                        raise Unsupported("%s can reach its end without a return" % fname)
+                    return result("tt", env)
+                cfg = {"inputs": inputs, "globals": {USTACK_VAR: set(USTACK_CELLS)}, "base_ptr": {basename: "stk_array"},
+                       "enums": enums, "dup_ifs": True, "on_return": on_return, "ignore_calls": set(),
+                       "lock": {"acquire": {"pthread_mutex_lock"}, "release": {"pthread_mutex_unlock"}, "object": (USTACK_VAR, USTACK_LOCK),
+                                "guards": set(cellnames) | {basename}}}
+                term = c2gal.translate_slice(fn, cfg, final=final)
+                rty = "cptr" if which == "malloc" else "unit"
+                out.append("(* %s : %s *)" % (os.path.basename(cfile), fname))
+                out.append("Definition %s (stk_size stk_used stk_top1 stk_top2 : Z) (stk_array : Z) (%s : Z) : %s * (Z * Z * Z * Z) :=\n%s.\n"
+                           % (gname, " ".join(c2gal.gallina_ident(c["name"]) for c in params), rty, term))
+                ok += 1
+            except Unsupported as e:
+                out.append("(* %s NOT TRANSLATED: %s *)\n" % (gname, str(e).replace("*)", "* )")))
+    write_if_changed(os.path.join(COQ, "UstackGen.v"), "\n".join(out) + "\n")
+    return ok
+
+
 if __name__ == "__main__":
     n = gen_argcheck()
     print("gen_trans: ArgCheckGen.v %d/28 routines translated" % n)
+    n = gen_pivot()
+    print("gen_trans: PivotGen.v %d/4 routines translated" % n)
+    n = gen_ustack()
+    print("gen_trans: UstackGen.v %d/8 functions translated" % n)
